@@ -17,6 +17,14 @@ package compiler
 // Program encoding (no spaces): statements separated by ';', functions by '|':
 //   E<k> emit, R raise, P<v> panic, T[body][catch], D[body] defer closure, C<f> call, X return,
 //   L<id>.<n>[body] loop, B break, K continue, V recover-and-log.
+//   A function text starting with the pseudo-statement `u` / `n` has one unnamed / one named int
+//   result (`func f() int` / `func f() (r int)`); in such a function Y<k> is `return mkv(k)` (mkv
+//   records marker k and returns it), Z<f> is `return f<f>()` (f has a result), W is
+//   `return 1 / zero`, X is `return 0` / `return`, and the body is closed by one more X.
+//
+// Every `defer` statement is preceded by `dr(id)` and every deferred closure starts with `dn(id)`
+// (natives that only count): "no deferred call is started more often than it was registered" is
+// checked on these counts alone, without any model or reference.
 
 import (
 	"fmt"
@@ -40,9 +48,9 @@ import (
 )
 
 type c10Stmt struct {
-	Op   byte // E R P T D C X L B K V
+	Op   byte // E R P T D C X L B K V  Y Z W  u n
 	N    int  // marker / panic value / callee / loop count
-	ID   int  // loop id
+	ID   int  // loop id; for D: number of the defer statement (c10NumberDefers, not encoded)
 	A, B []c10Stmt
 }
 
@@ -59,7 +67,7 @@ func c10EncBlock(b []c10Stmt) string {
 
 func (s c10Stmt) enc() string {
 	switch s.Op {
-	case 'E', 'P', 'C':
+	case 'E', 'P', 'C', 'Y', 'Z':
 		return string(s.Op) + strconv.Itoa(s.N)
 	case 'T':
 		return "T[" + c10EncBlock(s.A) + "][" + c10EncBlock(s.B) + "]"
@@ -88,9 +96,26 @@ func c10Render(p c10Prog) string {
 
 	sb.WriteString("zero := 0\nzz := 0\n")
 
+	c10NumberDefers(p)
+
 	for i, f := range p {
-		fmt.Fprintf(&sb, "func f%d() {\n", i)
-		c10RenderBlock(&sb, f, 1)
+		kind := c10Kind(f)
+
+		switch kind {
+		case 'u':
+			fmt.Fprintf(&sb, "func f%d() int {\n", i)
+		case 'n':
+			fmt.Fprintf(&sb, "func f%d() (r int) {\n", i)
+		default:
+			fmt.Fprintf(&sb, "func f%d() {\n", i)
+		}
+
+		c10RenderBlock(&sb, f, 1, kind)
+
+		if kind != 0 {
+			c10RenderBlock(&sb, []c10Stmt{{Op: 'X'}}, 1, kind)
+		}
+
 		sb.WriteString("}\n")
 	}
 
@@ -99,7 +124,30 @@ func c10Render(p c10Prog) string {
 	return sb.String()
 }
 
-func c10RenderBlock(sb *strings.Builder, b []c10Stmt, ind int) {
+// c10NumberDefers numbers the defer statements of the program 1, 2, ... in text order.
+func c10NumberDefers(p c10Prog) {
+	n := 0
+
+	var walk func(b []c10Stmt)
+
+	walk = func(b []c10Stmt) {
+		for i := range b {
+			if b[i].Op == 'D' {
+				n++
+				b[i].ID = n
+			}
+
+			walk(b[i].A)
+			walk(b[i].B)
+		}
+	}
+
+	for _, f := range p {
+		walk(f)
+	}
+}
+
+func c10RenderBlock(sb *strings.Builder, b []c10Stmt, ind int, kind byte) {
 	pad := strings.Repeat("    ", ind)
 
 	for _, s := range b {
@@ -112,22 +160,34 @@ func c10RenderBlock(sb *strings.Builder, b []c10Stmt, ind int) {
 			fmt.Fprintf(sb, "%spanic(%d)\n", pad, s.N)
 		case 'T':
 			fmt.Fprintf(sb, "%stry {\n", pad)
-			c10RenderBlock(sb, s.A, ind+1)
+			c10RenderBlock(sb, s.A, ind+1, kind)
 			fmt.Fprintf(sb, "%s} catch {\n", pad)
-			c10RenderBlock(sb, s.B, ind+1)
+			c10RenderBlock(sb, s.B, ind+1, kind)
 			fmt.Fprintf(sb, "%s}\n", pad)
 		case 'D':
+			fmt.Fprintf(sb, "%sdr(%d)\n", pad, s.ID)
 			fmt.Fprintf(sb, "%sdefer func() {\n", pad)
-			c10RenderBlock(sb, s.A, ind+1)
+			fmt.Fprintf(sb, "%s    dn(%d)\n", pad, s.ID)
+			c10RenderBlock(sb, s.A, ind+1, 0)
 			fmt.Fprintf(sb, "%s}()\n", pad)
 		case 'C':
 			fmt.Fprintf(sb, "%sf%d()\n", pad, s.N)
 		case 'X':
-			fmt.Fprintf(sb, "%sreturn\n", pad)
+			if kind == 'u' {
+				fmt.Fprintf(sb, "%sreturn 0\n", pad)
+			} else {
+				fmt.Fprintf(sb, "%sreturn\n", pad)
+			}
+		case 'Y':
+			fmt.Fprintf(sb, "%sreturn mkv(%d)\n", pad, s.N)
+		case 'Z':
+			fmt.Fprintf(sb, "%sreturn f%d()\n", pad, s.N)
+		case 'W':
+			fmt.Fprintf(sb, "%sreturn 1 / zero\n", pad)
 		case 'L':
 			v := "i" + strconv.Itoa(s.ID)
 			fmt.Fprintf(sb, "%sfor %s := 0; %s < %d; %s = %s + 1 {\n", pad, v, v, s.N, v, v)
-			c10RenderBlock(sb, s.A, ind+1)
+			c10RenderBlock(sb, s.A, ind+1, kind)
 			fmt.Fprintf(sb, "%s}\n", pad)
 		case 'B':
 			fmt.Fprintf(sb, "%sbreak\n", pad)
@@ -145,6 +205,8 @@ type c10Run struct {
 	trace  []string
 	status string // ok | err | panic | other:<..> | compile
 	funcs  map[string]*bytecode.ByteCode
+	regs   map[int]int // defer statement -> times executed (dr)
+	starts []int       // deferred closures started, in order (dn)
 }
 
 // c10Exec compiles and runs the program.  The run happens in a goroutine guarded by a watchdog:
@@ -156,8 +218,9 @@ func c10Exec(p c10Prog, opt int) c10Run {
 
 	var mu sync.Mutex
 
-	res := c10Run{funcs: map[string]*bytecode.ByteCode{}}
+	res := c10Run{funcs: map[string]*bytecode.ByteCode{}, regs: map[int]int{}}
 	trace := []string{}
+	starts := []int{}
 	s := symbols.NewRootSymbolTable("verif c10")
 
 	s.SetAlways("mk", func(_ *symbols.SymbolTable, args data.List) (any, error) {
@@ -166,6 +229,34 @@ func c10Exec(p c10Prog, opt int) c10Run {
 
 		if len(trace) < 100000 {
 			trace = append(trace, data.String(args.Get(0)))
+		}
+
+		return nil, nil
+	})
+	s.SetAlways("mkv", func(_ *symbols.SymbolTable, args data.List) (any, error) {
+		mu.Lock()
+		defer mu.Unlock()
+
+		if len(trace) < 100000 {
+			trace = append(trace, data.String(args.Get(0)))
+		}
+
+		return data.IntOrZero(args.Get(0)), nil
+	})
+	s.SetAlways("dr", func(_ *symbols.SymbolTable, args data.List) (any, error) {
+		mu.Lock()
+		defer mu.Unlock()
+
+		res.regs[data.IntOrZero(args.Get(0))]++
+
+		return nil, nil
+	})
+	s.SetAlways("dn", func(_ *symbols.SymbolTable, args data.List) (any, error) {
+		mu.Lock()
+		defer mu.Unlock()
+
+		if len(starts) < 100000 {
+			starts = append(starts, data.IntOrZero(args.Get(0)))
 		}
 
 		return nil, nil
@@ -238,7 +329,15 @@ func c10Exec(p c10Prog, opt int) c10Run {
 	mu.Lock()
 	res.trace = append([]string{}, trace...)
 	if len(res.trace) > 400 {
-		res.trace = res.trace[:400] // only a runaway VM gets here: programs are limited to 150 markers
+		// programs are limited to 150 markers in the REFERENCE run; a real run gets here when it runs
+		// away or when deferred calls run again and again (known findings).  egodriver C10 cuts its
+		// traces at the same length.
+		res.trace = res.trace[:400]
+	}
+
+	res.starts = append([]int{}, starts...)
+	if len(res.starts) > 400 {
+		res.starts = res.starts[:400]
 	}
 	mu.Unlock()
 
@@ -310,6 +409,28 @@ var c10Corpus = []string{
 	"T[C1][E1];T[C1][E2];E3|L1.2[T[X][E4]];R",
 	"T[C1][E1;T[C1][E2;T[C1][E3]]];E4|R",
 	"C1;E1|C2;E2|C3;E3|D[V;E4];D[E5];L1.2[D[E6]];P9",
+	// return statements with an expression: result unnamed (u) / named (n), 0..3 deferred calls,
+	// under a try of the same function or not; the expression emits, raises, panics
+	"C1;E9|u;D[E1];Z2|u;P7",
+	"C1;E9|n;D[E1];Z2|u;P7",
+	"C1;E9|u;D[E1];D[V;E2];Z2;E3|n;E4;P7",
+	"C1;E9|n;D[E1];D[V;E2];Z2;E3|n;E4;P7",
+	"u;D[E1];T[W][E2];E3",
+	"n;D[E1];T[W][E2];E3",
+	"u;D[E1];D[E2];D[E3];T[Z1][E4];E5;Y6|u;E7;R;E8",
+	"n;D[E1];D[E2];D[E3];T[Z1][E4];E5;Y6|n;E7;R;E8",
+	"T[C1;E1][E2];E3|u;D[E4];W",
+	"T[C1;E1][E2];E3|u;D[E4];Z2|n;D[E5];R",
+	"C1;E1|u;D[E2];D[E3];Y4;E5",
+	"C1;E1|n;D[E2];D[E3];Y4;E5",
+	"C1;E1|u;Z2|u;D[E2];Y3",
+	"C1;E1|u;L1.2[D[E2];T[Z2][E3;K];E4];Y5|u;D[E6];W",
+	"C1;E1|n;L1.2[D[E2];T[Z2][E3;K];E4];Y5|n;D[E6];W",
+	"C1;E1|u;D[V;E2];L1.3[T[Z2;E3][E4;B]];E5|u;D[E6];P8",
+	"D[V;E1];C1;E2|u;D[E3];T[Z2][E4]|u;D[E5];T[W][E6;P9]",
+	"n;D[E1];L1.2[Y2]",
+	"u;D[E1];L1.2[T[Y2][E3]]",
+	"C1;C1|u;D[D[E1];E2];Z2|n;D[V];P5",
 }
 
 func c10HasLoopInTry(b []c10Stmt, inTry bool) bool {
@@ -341,6 +462,8 @@ func c10Class(p c10Prog, m *c10Ref) string {
 		return "error-escapes-deferred-call"
 	case m.recoverOuter:
 		return "recover-reaches-outer-panic"
+	case m.retExprFailed:
+		return "defers-run-twice-on-failing-return-expr"
 	}
 
 	for _, f := range p {
@@ -356,6 +479,76 @@ func c10Class(p c10Prog, m *c10Ref) string {
 	}
 
 	return "trace-mismatch"
+}
+
+// c10ShowStarts: "started ids in order / registrations per defer statement".
+func c10ShowStarts(starts []int, regs map[int]int) string {
+	a := make([]string, len(starts))
+	for i, id := range starts {
+		a[i] = strconv.Itoa(id)
+	}
+
+	ids := make([]int, 0, len(regs))
+	for id := range regs {
+		ids = append(ids, id)
+	}
+
+	sort.Ints(ids)
+
+	b := make([]string, len(ids))
+	for i, id := range ids {
+		b[i] = fmt.Sprintf("%d:%d", id, regs[id])
+	}
+
+	return strings.Join(a, ",") + "/" + strings.Join(b, ",")
+}
+
+// c10RetShape classifies (coverage only) the first function that has a return statement with an
+// expression: result kind, number of defer statements directly in its body (0..3+), and whether
+// such a return sits inside a try of that function.
+func c10RetShape(p c10Prog) string {
+	var has func(b []c10Stmt, inTry bool) (found, under bool)
+
+	has = func(b []c10Stmt, inTry bool) (bool, bool) {
+		found, under := false, false
+
+		for _, s := range b {
+			switch s.Op {
+			case 'Y', 'Z', 'W':
+				found, under = true, under || inTry
+			case 'T':
+				f1, u1 := has(s.A, true)
+				f2, u2 := has(s.B, inTry)
+				found, under = found || f1 || f2, under || u1 || u2
+			case 'L':
+				f1, u1 := has(s.A, inTry)
+				found, under = found || f1, under || u1
+			}
+		}
+
+		return found, under
+	}
+
+	for _, f := range p {
+		if found, under := has(f, false); found {
+			nd := 0
+
+			for _, s := range f {
+				if s.Op == 'D' && nd < 3 {
+					nd++
+				}
+			}
+
+			t := "plain"
+			if under {
+				t = "try"
+			}
+
+			return fmt.Sprintf("ret_%c_defers%d_%s", c10Kind(f), nd, t)
+		}
+	}
+
+	return "ret_none"
 }
 
 func c10Status(s string) string {
@@ -418,7 +611,7 @@ func TestVerifC10(t *testing.T) {
 		}
 
 		kinds := 0
-		for _, b := range []bool{m.caught > 0, m.recovered > 0, m.panicInDefer || m.errInDefer || m.errAbandonsDef, m.maxDepth > 2} {
+		for _, b := range []bool{m.caught > 0, m.recovered > 0, m.panicInDefer || m.errInDefer || m.errAbandonsDef, m.maxDepth > 2, m.retExprs > 0} {
 			if b {
 				kinds++
 			}
@@ -454,9 +647,61 @@ func TestVerifC10(t *testing.T) {
 			stats.Inc("deep_gt3")
 		}
 
-		if got0 != want {
+		if m.retExprs > 0 {
+			stats.Add("ref_ret_expr_with_defers", m.retExprs)
+			stats.Inc("shape_" + c10RetShape(p))
+		}
+
+		if m.retExprFailed {
+			stats.Inc("ref_ret_expr_failed")
+		}
+
+		// model-free: no deferred call is started more often than its defer statement was executed
+		twice := ""
+
+		for i, run := range []c10Run{r0, r2} {
+			n := map[int]int{}
+			for _, id := range run.starts {
+				n[id]++
+			}
+
+			ids := make([]int, 0, len(n))
+			for id := range n {
+				ids = append(ids, id)
+			}
+
+			sort.Ints(ids)
+
+			for _, id := range ids {
+				if n[id] > run.regs[id] && twice == "" {
+					twice = fmt.Sprintf("optimizer %d: defer statement #%d executed %d time(s), its deferred call started %d times",
+						2*i, id, run.regs[id], n[id])
+				}
+			}
+		}
+
+		wantStarts := c10ShowStarts(m.starts, m.regs)
+
+		if twice != "" {
+			cls := c10Class(p, m)
+			if cls == "break-continue-inside-try" || cls == "loop-inside-try" || cls == "trace-mismatch" {
+				cls = "deferred-call-runs-twice"
+			}
+
+			fails.Write(verifh.Failure{Class: cls, What: "a deferred call ran more often than it was registered (" + twice + ")",
+				Input: enc, Got: got0, Want: want})
+			stats.Inc("oracle_fail")
+		} else if got0 != want {
 			fails.Write(verifh.Failure{Class: c10Class(p, m), What: "trace at optimizer 0 differs from the documented semantics",
 				Input: enc, Got: got0, Want: want})
+			stats.Inc("oracle_fail")
+		} else if g := c10ShowStarts(r0.starts, r0.regs); g != wantStarts {
+			fails.Write(verifh.Failure{Class: c10Class(p, m), What: "deferred calls registered / started (optimizer 0) differ from: each registered call once, last registered first",
+				Input: enc, Got: g, Want: wantStarts})
+			stats.Inc("oracle_fail")
+		} else if g := c10ShowStarts(r2.starts, r2.regs); g != wantStarts {
+			fails.Write(verifh.Failure{Class: c10Class(p, m), What: "deferred calls registered / started (optimizer 2) differ from: each registered call once, last registered first",
+				Input: enc, Got: g, Want: wantStarts})
 			stats.Inc("oracle_fail")
 		} else if got2 != want {
 			fails.Write(verifh.Failure{Class: c10Class(p, m), What: "trace at optimizer 2 differs from the documented semantics",
